@@ -43,6 +43,25 @@ pub struct Scenario {
 
 /// Renders every keyframe twice with the given pool; returns per-call outcome strings.
 pub fn render_all(bytes: &[u8], pool: JxlThreadPool) -> Vec<String> {
+    render_all_inner(bytes, pool)
+}
+
+/// As `render_all`; also returns the frames whose render was requested (run_with_image) from inside a pool job.  A
+/// blocking wait there can occupy the worker that the awaited render needs (work stealing while it waits in a
+/// scope): a schedule-independent precondition of a deadlock, observable in every execution.
+pub fn render_all_ex(bytes: &[u8], pool: JxlThreadPool, calling_thread_only: bool) -> (Vec<String>, Vec<usize>) {
+    let _ = jxl_render::verif_sync::take_requests_in_pool_jobs(calling_thread_only);
+    // with the sequential pool everything runs on this thread: a wait for another frame's render cannot end
+    jxl_render::verif_sync::set_sole_thread(calling_thread_only);
+    let r = render_all_inner(bytes, pool);
+    jxl_render::verif_sync::set_sole_thread(false);
+    let mut v = jxl_render::verif_sync::take_requests_in_pool_jobs(calling_thread_only);
+    v.sort();
+    v.dedup();
+    (r, v)
+}
+
+fn render_all_inner(bytes: &[u8], pool: JxlThreadPool) -> Vec<String> {
     let r = guard(|| {
         let img = match JxlImage::builder().pool(pool.clone()).read(bytes) {
             Ok(i) => i,
@@ -95,7 +114,7 @@ pub fn scenarios(quick: bool) -> Vec<Scenario> {
     let names: Vec<&str> = if false {
         vec![]
     } else {
-        vec!["rgb-130x130-groups-tocrev", "rgb-130x130-groups-localtree", "rgb-300x200-groups-unequal-localtrees", "gray-70x40-squeeze-2pass", "rgb12-49x19-squeeze-hv", "anim-12x10-3kf", "anim-12x10-muladd-mul", "ref-then-blend-alpha16", "layers-chain-two-kf", "anim-4x4-six-frames", "rgba-9x7-ans-rct", "vardct-ycbcr-48x40-gab-epf", "vardct-ycbcr-40x24-noise", "vardct-420-40x24", "vardct-422-33x17-gab-epf", "rgba-24x20-patches", "rgba-up2-21x13", "vardct-ycbcr-40x24-up4-epf", "vardct-264x40-2groups-gab-epf", "vardct-520x24-3groups-420", "vardct-260x264-4groups", "vardct-lfframe-40x24", "vardct-lfframe-264x40-2groups-epf", "rgb-40x24-splines", "vardct-40x24-splines-noise", "vardct-512x128-dct128-2groups-gab-epf", "vardct-512x136-dct64x128-2groups", "vardct-512x256-dct256-2groups", "vardct-520x256-dct128x256-3groups", "vardct-300x72-dct64-2groups"]
+        vec!["rgb-130x130-groups-tocrev", "rgb-130x130-groups-localtree", "rgb-300x200-groups-unequal-localtrees", "gray-70x40-squeeze-2pass", "rgb12-49x19-squeeze-hv", "anim-12x10-3kf", "anim-12x10-muladd-mul", "ref-then-blend-alpha16", "layers-chain-two-kf", "anim-4x4-six-frames", "rgba-9x7-ans-rct", "vardct-ycbcr-48x40-gab-epf", "vardct-ycbcr-40x24-noise", "vardct-420-40x24", "vardct-422-33x17-gab-epf", "rgba-24x20-patches", "rgba-24x20-patches-layer-under-patched-keyframe", "rgba-up2-21x13", "vardct-ycbcr-40x24-up4-epf", "vardct-264x40-2groups-gab-epf", "vardct-520x24-3groups-420", "vardct-260x264-4groups", "vardct-lfframe-40x24", "vardct-lfframe-264x40-2groups-epf", "rgb-40x24-splines", "vardct-40x24-splines-noise", "vardct-512x128-dct128-2groups-gab-epf", "vardct-512x136-dct64x128-2groups", "vardct-512x256-dct256-2groups", "vardct-520x256-dct128x256-3groups", "vardct-300x72-dct64-2groups"]
     };
     for n in names {
         v.push(Scenario { name: n.to_string(), bytes: get(n) });
@@ -119,6 +138,13 @@ fn tsan_child(name: &str, threads: usize) -> ! {
     let scs = scenarios(false);
     let sc = scs.iter().find(|s| s.name == name).unwrap_or_else(|| crate::explore::machinery_failure(&format!("no scenario {name}")));
     let r = render_all(&sc.bytes, JxlThreadPool::rayon(Some(threads)));
+    let in_job = jxl_render::verif_sync::take_requests_in_pool_jobs(false);
+    if !in_job.is_empty() {
+        let mut v = in_job;
+        v.sort();
+        v.dedup();
+        eprintln!("VERIF-NOTE: handle-wait-in-pool-job the render of frame(s) {v:?} was requested (and would be waited for) from inside a pool job");
+    }
     println!("{}", r.join(" "));
     std::process::exit(0)
 }
@@ -126,7 +152,7 @@ fn tsan_child(name: &str, threads: usize) -> ! {
 /// The race-detector side pass (see `tsan.rs`): every scenario with real rayon pools.
 fn tsan_jobs(quick: bool) -> Vec<(String, Vec<String>)> {
     let scs = scenarios(quick);
-    let sizes: Vec<usize> = if quick { vec![2, 4] } else { vec![2, 3, 4, 8, 16] };
+    let sizes: Vec<usize> = if quick { vec![3] } else { vec![2, 3, 4, 8, 16] };
     let reps = if quick { 1 } else { 3 };
     let mut jobs = vec![];
     for sc in &scs {
@@ -170,12 +196,15 @@ pub fn main(args: &crate::Args) {
         let (runs, capped) = explore_part(bound, cap / NPARTS, part, NPARTS, |t| {
             let hooks = Arc::new(TapeHooks { tape: Mutex::new(std::mem::take(t)), picks: Mutex::new(vec![]) });
             let pool = JxlThreadPool::verif(hooks.clone());
-            let got = render_all(&sc.bytes, pool);
+            let (got, in_job) = render_all_ex(&sc.bytes, pool, true);
             let picks = hooks.picks.lock().unwrap().clone();
             *t = std::mem::take(&mut *hooks.tape.lock().unwrap());
             o.max_picks = o.max_picks.max(picks.len());
             o.orders.insert(fnv(format!("{:?}", picks).as_bytes()));
             o.outcomes.insert(got.iter().map(|s| s.split(':').take(2).collect::<Vec<_>>().join(":")).collect::<Vec<_>>().join(","));
+            if o.viol.is_none() && !in_job.is_empty() {
+                o.viol = Some(("handle-wait-in-pool-job".into(), format!("the render of frame(s) {in_job:?} was requested (FrameRenderHandle::run_with_image, which blocks while another thread renders that frame) from inside a pool job: with a multithreaded pool the blocked job can sit on the worker whose suspended scope is that very render (work stealing), and nobody ever finishes it"), t.answers.clone()));
+            }
             if o.viol.is_none() && &got != reference {
                 let i = (0..got.len().max(reference.len())).find(|&i| got.get(i) != reference.get(i)).unwrap_or(0);
                 let (g, r) = (got.get(i).cloned().unwrap_or_default(), reference.get(i).cloned().unwrap_or_default());
@@ -215,10 +244,24 @@ pub fn main(args: &crate::Args) {
     // ---- supporting (not deciding): real rayon pools, repetition
     let mut rayon_runs = 0u64;
     let sizes: Vec<usize> = if quick { vec![1, 2, 8] } else { vec![1, 2, 3, 8, 16] };
-    for (si, sc) in scs.iter().enumerate() {
+    let mut hung = false;
+    'runs: for (si, sc) in scs.iter().enumerate() {
         for &n in &sizes {
             for _rep in 0..(if quick { 2 } else { 5 }) {
-                let got = render_all(&sc.bytes, JxlThreadPool::rayon(Some(n)));
+                // on a helper thread with a deadline: a render that never returns must end the check with a verdict
+                let (tx, rx) = std::sync::mpsc::channel();
+                let bytes = sc.bytes.clone();
+                std::thread::spawn(move || {
+                    let _ = tx.send(render_all(&bytes, JxlThreadPool::rayon(Some(n))));
+                });
+                let got = match rx.recv_timeout(std::time::Duration::from_secs(120)) {
+                    Ok(g) => g,
+                    Err(_) => {
+                        hung = true;
+                        rep.violation(&format!("free-running-hang:{}", sc.name), &format!("rendering {} with a rayon pool of {n} threads did not return within 120 s (free-running run, a few percent of the runs at most)", sc.name), &json!({"family": "tsan-hang", "label": format!("{} with a rayon pool of {n} threads", sc.name), "child_args": ["C07", "--tsan-child", sc.name, n.to_string()]}));
+                        break 'runs;
+                    }
+                };
                 rayon_runs += 1;
                 if got != refs[si] {
                     let i = (0..got.len().max(refs[si].len())).find(|&i| got.get(i) != refs[si].get(i)).unwrap_or(0);
@@ -228,7 +271,11 @@ pub fn main(args: &crate::Args) {
         }
     }
     rep.evaluations += rayon_runs;
-    rep.rule = format!("{} scenarios (multi-group / multi-pass / squeeze Modular frames, animations and layered images with reference chains, and multi-group streams with one corrupted section each) rendered through the sequential Verif pool: at every pool operation (scope task pick, for_each element pick, deferral of fire-and-forget reference renders, re-creation of per-worker scratch) the choice is owned by a tape; ALL tapes within {bound} deviations of FIFO order are executed, every keyframe rendered twice; oracle: each call's Ok/Err and sample bits identical to the pool-less render. Supporting, not exhaustive: {} free-running renders with real rayon pools of sizes {:?}.", scs.len(), rayon_runs, sizes);
+    if hung {
+        // the blocked threads cannot be ended: write the evidence and leave
+        rep.caps.push("free-running rayon runs stopped at the first render that did not return".into());
+    }
+    rep.rule = format!("{} scenarios (multi-group / multi-pass / squeeze Modular frames, animations and layered images with reference chains, and multi-group streams with one corrupted section each) rendered through the sequential Verif pool: at every pool operation (scope task pick, for_each element pick, deferral of fire-and-forget reference renders, re-creation of per-worker scratch) the choice is owned by a tape; ALL tapes within {bound} deviations of FIFO order are executed, every keyframe rendered twice; oracle: each call's Ok/Err and sample bits identical to the pool-less render, and no frame's render is requested-and-waited-for from inside a pool job (the schedule-independent precondition of the work-stealing self-deadlock). Supporting, not exhaustive: {} free-running renders with real rayon pools of sizes {:?}.", scs.len(), rayon_runs, sizes);
     rep.sample(json!({"scenario": scs[0].name, "task_orders": per_scenario.get(&scs[0].name), "reference": refs[0]}));
     rep.sample(json!({"scenario": scs.last().unwrap().name, "reference": refs.last().unwrap()}));
     rep.extra.insert("task_order_executions".into(), json!(per_scenario));
@@ -248,7 +295,7 @@ pub fn main(args: &crate::Args) {
 fn replay(path: &str) -> ! {
     let s = std::fs::read_to_string(path).unwrap_or_else(|e| crate::explore::machinery_failure(&format!("{path}: {e}")));
     let v: serde_json::Value = serde_json::from_str(&s).unwrap();
-    if v["family"] == "tsan" {
+    if v["family"] == "tsan" || v["family"] == "tsan-hang" {
         crate::tsan::replay("C07", path, &v);
     }
     let bytes = crate::report::unhex(v["stream_hex"].as_str().unwrap());
@@ -258,7 +305,13 @@ fn replay(path: &str) -> ! {
     } else {
         let tape: Vec<u32> = v["tape"].as_array().unwrap().iter().map(|x| x.as_u64().unwrap() as u32).collect();
         let hooks = Arc::new(TapeHooks { tape: Mutex::new(Tape::from_answers(&tape)), picks: Mutex::new(vec![]) });
-        render_all(&bytes, JxlThreadPool::verif(hooks))
+        let (r, in_job) = render_all_ex(&bytes, JxlThreadPool::verif(hooks), true);
+        if !in_job.is_empty() {
+            println!("frames whose render was requested from inside a pool job: {in_job:?}");
+            println!("VIOLATION property=C07 replay={path}\n  key=handle-wait-in-pool-job :: frames {in_job:?}");
+            std::process::exit(1)
+        }
+        r
     };
     println!("without pool: {:?}\nthis order:   {:?}", reference, got);
     if got == reference {
